@@ -584,3 +584,44 @@ def typed_solution(out):
             if fld is not None:
                 res[f'{sec}.{k}'] = fld.from_string(text)
     return res
+
+
+def plain_persona(year, status, wages, key='plain', deps_odc=0, deps_ctc=0, **kw):
+    """A fully controlled persona: one W-2 (or several, wages as a list), nothing
+    else unless asked for through keyword features.  Used by directed probes."""
+    p = Persona(year, 'F0', key, status=status)
+    p.status = status
+    p.joint = status == 'MFJ'
+    p.ndep = deps_odc + deps_ctc
+    p.dep_ctc = [True] * deps_ctc + [False] * deps_odc
+    p.n_ctc = deps_ctc
+    p.n_under6 = 0
+    ws = wages if isinstance(wages, (list, tuple)) else [wages]
+    p.n_w2 = len(ws)
+    p.total_wages = float(sum(ws))
+    p.w2 = [{'box_1': float(w), 'box_2': round(float(w) * kw.get('withhold', 0.15), 2), 'box_3': float(w), 'box_4': round(float(w) * 0.062, 2), 'box_5': float(w),
+             'box_6': round(float(w) * 0.0145, 2), 'box_15': 'NC', 'box_17': round(float(w) * 0.03, 2), 'box_19': 0.0,
+             'belongs_to': 'spouse' if (p.joint and k % 2 == 1) else 'taxpayer'} for k, w in enumerate(ws)]
+    p.n_int, p.ints, p.n_div, p.divs = 0, [], 0, []
+    p.n_1098, p.f1098, p.n_1099g, p.f1099g, p.n_1099r, p.f1099r = 0, [], 0, [], 0, []
+    p.itemize, p.nc, p.itemize_though_less = False, False, False
+    p.s1_income, p.s1_adjust, p.hsa_you, p.hsa_spouse = False, False, False, False
+    p.need_other_income, p.need_other_adjustments, p.state_local_adjust = False, False, False
+    p.estimated, p.other_wh, p.apply_next, p.tax_penalty = 0.0, 0.0, 0.0, 0.0
+    p.sprinkle = False
+    p.advance_ctc = 0.0
+    for k in p.s1:
+        p.s1[k] = 0.0
+    for k in p.sa:
+        p.sa[k] = 0.0
+    for k in list(p.ncv):
+        p.ncv[k] = False if isinstance(p.ncv[k], bool) else 0.0
+    p.ncv['no_consumer_use_tax'] = True
+    for name, val in kw.items():
+        if name in ('withhold',):
+            continue
+        if name == 'overrides':
+            p.overrides.update(val)
+        else:
+            setattr(p, name, val)
+    return p
